@@ -231,13 +231,16 @@ theorem sum_spec : Statement_sum_spec := by
   simp [aggValue, h, AccSt.value, sumDT_getD]
 
 /-- AVG = Sum / Count over the (DISTINCT) numeric values, integer 0 for none; xsd:decimal unless a value is
-    xsd:float/xsd:double (then a floating datatype) -/
+    xsd:float/xsd:double (then a floating datatype).  The decimal TERM is determined too: its lexical form has
+    `avgScale q (largest scale among the values)` fraction digits — what Python's `Decimal(sum) / Decimal(count)`
+    gives (see `decimal_scale_spec`) — so row identity under DISTINCT is predicted, not only the value. -/
 def Statement_avg_spec : Prop :=
   ∀ (a : AggSpec) (rows : List Row), a.kind = .avg →
     let ns := numArgs a rows
     let q := sumRat (ns.map (·.2.1)) / ((ns.length : Nat) : Rat)
     (ns = [] → aggValue a rows = some (.num .integer 0 0)) ∧
-    (ns ≠ [] → (ns.map (·.1)).any DT.isFloating = false → aggValue a rows = some (.num .decimal q 0)) ∧
+    (ns ≠ [] → (ns.map (·.1)).any DT.isFloating = false →
+      aggValue a rows = some (.num .decimal q (avgScale q (maxScale (ns.map (·.2.2)))))) ∧
     (ns ≠ [] → (ns.map (·.1)).any DT.isFloating = true →
       ∃ d, d.isFloating = true ∧ aggValue a rows = some (mkNum d q 0))
 
@@ -257,6 +260,52 @@ theorem avg_spec : Statement_avg_spec := by
     have hlen : (numArgs a rows).length ≠ 0 := fun e => hn (List.length_eq_zero_iff.1 e)
     rw [hf] at hfl
     exact ⟨d0, hfl, by simp [aggValue, h, AccSt.value, hlen, hfl]⟩
+
+/-- the scale of an AVG quotient: if `q · 10^m` is an integer for some `m < 30` then the least such `m` is found
+    and the quotient keeps `max (scale of the sum) m` fraction digits; otherwise the marker `inexactScale`,
+    the same for every non-terminating quotient (Python rounds those to 28 significant digits, a function of the
+    value alone) -/
+def Statement_decimal_scale_spec : Prop :=
+  ∀ (q : Rat) (sumScale : Nat),
+    (∀ m, decScale? q = some m →
+      (q * ((pow10 m : Nat) : Rat)).den = 1 ∧ (∀ j, j < m → (q * ((pow10 j : Nat) : Rat)).den ≠ 1) ∧
+      avgScale q sumScale = max sumScale m) ∧
+    (decScale? q = none →
+      (∀ j, j < 30 → (q * ((pow10 j : Nat) : Rat)).den ≠ 1) ∧ avgScale q sumScale = inexactScale)
+
+theorem decimal_scale_spec : Statement_decimal_scale_spec := by
+  intro q sc
+  constructor
+  · intro m h
+    obtain ⟨_, _, h3, h4⟩ := decScaleAux_some q 30 0 m h
+    exact ⟨h3, fun j hj => h4 j (Nat.zero_le _) hj, by simp [avgScale, h]⟩
+  · intro h
+    exact ⟨fun j hj => decScaleAux_none q 30 0 h j (Nat.zero_le _) (by omega), by simp [avgScale, h]⟩
+
+/-- two decimal AVG results are the same TERM (and so collapse under DISTINCT) iff they have the same value and
+    the same number of fraction digits; e.g. AVG{5, 0} = "2.5" = AVG{5.0, 0} ≠ "2.50" = AVG{5.00, 0}, and every
+    group averaging to 1/3 yields the one term 0.3333333333333333333333333333 -/
+def Statement_avg_term_identity : Prop :=
+  ∀ (q1 q2 : Rat) (s1 s2 : Nat),
+    (Term.num .decimal q1 (avgScale q1 s1) = Term.num .decimal q2 (avgScale q2 s2) ↔
+      q1 = q2 ∧ avgScale q1 s1 = avgScale q1 s2) ∧
+    (decScale? q1 = none → Term.num .decimal q1 (avgScale q1 s1) = Term.num .decimal q1 (avgScale q1 s2))
+
+theorem avg_term_identity : Statement_avg_term_identity := by
+  intro q1 q2 s1 s2
+  constructor
+  · constructor
+    · intro h
+      injection h with _ h2 h3
+      subst h2
+      exact ⟨rfl, h3⟩
+    · rintro ⟨rfl, h⟩
+      rw [h]
+  · intro h
+    simp [avgScale, h]
+
+example : avgScale (5 / 2) 0 = 1 ∧ avgScale (5 / 2) 1 = 1 ∧ avgScale (5 / 2) 2 = 2 ∧ avgScale 3 0 = 0 ∧
+    avgScale (1 / 3) 0 = inexactScale ∧ avgScale (5 / 4) 2 = 2 ∧ avgScale (1 / 8) 0 = 3 := by decide +kernel
 
 /-- MIN/MAX: unbound for no values; otherwise a value of the group that no value of the group precedes
     (resp. that precedes no value of the group) in the SPARQL ordering (`minOk`, `maxOk` in Spec.lean) -/
